@@ -134,6 +134,8 @@ def to_tree_fragment(prog):
             if nd["t"] == "comp":
                 # bodies of the fragment: `{% fill "literal" [data=…] %}` tags at the top level, no default alias
                 keep = [dict(f, dflt=None) for f in nd["body"] if f["t"] == "fill" and "lit" in f["name"]]
+                if not keep and not any(m["t"] == "fill" for m in tplgen.walk(nd["body"])):
+                    keep = nd["body"]                      # implicit default content (already projected)
                 out.append(dict(nd, body=keep, dyn=False))
             elif nd["t"] == "slot":
                 out.append(dict(nd, default=False))       # unfilled slots are inside the fragment (not flagged `default`)
